@@ -329,6 +329,28 @@ func genTree(r *hx.Rng, dir string, o imgOpts) (*tree, error) {
 			return nil, err
 		}
 	}
+	{
+		// one data block in sixteen: few allocated blocks spread over a long logical range, more than
+		// four extents (so the tree has an interior node whose last index entry starts far beyond the
+		// number of allocated blocks)
+		nb := 16 * 24
+		var hs [][2]int
+		for b := 0; b+15 < nb; b += 16 {
+			hs = append(hs, [2]int{b + 1, b + 15})
+		}
+		if err := punch("sp_wide", nb, hs); err != nil {
+			return nil, err
+		}
+		// a leading hole much larger than what stays allocated, followed by alternating blocks
+		nb = 300
+		hs = [][2]int{{0, 283}}
+		for b := 285; b < nb-1; b += 2 {
+			hs = append(hs, [2]int{b, b})
+		}
+		if err := punch("sp_lead", nb, hs); err != nil {
+			return nil, err
+		}
+	}
 	// --- fragmented file without holes: fillers, remove every other one, then write into the gaps
 	if err := mkdir("fill"); err != nil {
 		return nil, err
